@@ -936,7 +936,15 @@ def tenant_map_durable(ctx, prog):
     dirs = [c for c in syn if c.callee.endswith('sync_all') and re.match(r'^File::open\(Path::parent\(arg:path\)', flow.render(o.of_operand(c.args[0])))]
     steps = [util.Step('write_all(tmp)', p, [c.bb for c in wr]), util.Step('sync_all(tmp)', p, [c.bb for c in tmpf]),
              util.Step('rename(tmp → path)', p, [c.bb for c in ren]), util.Step('sync_all(parent dir)', p, [c.bb for c in dirs])]
-    util.check_chain(ctx, 'C10.R13', p, steps)
+    WHY = {'write_all(tmp)': 'nothing is written to the temp file', 'sync_all(tmp)': 'the temp file is not fsynced before the rename: after a power failure tenants.json can be '
+           'empty or cut short although the rename is on disk', 'rename(tmp → path)': 'the temp file is never moved onto the path argument',
+           'sync_all(parent dir)': 'the rename itself is not made durable (no fsync of the parent directory): after a power failure the OLD tenants.json is back while documents '
+           'written under the new index are in the WAL'}
+    for st in steps:
+        ctx.inst('C10.R13', p.short, 'step %s is present' % st.name, bool(st.blocks), ('%d call site(s)' % len(st.blocks)) if st.blocks else WHY[st.name])
+    present = [st for st in steps if st.blocks]
+    if len(present) >= 2:
+        util.check_chain(ctx, 'C10.R13', p, present)
     if wr and tmpf and ren:
         wf = flow.render(o.of_operand(wr[0].args[0]))
         sf = flow.render(o.of_operand(tmpf[0].args[0]))
